@@ -143,6 +143,10 @@ class SimHost:
         self.clock = Clock(mode=swarm.get("clock", "advancing"))
         self.rare = {"sig": None, "key": None}
         self.fast_stack = bool(swarm.get("fast_stack", True))
+        # the real command line always runs with the tool's logging.yaml loaded: DEBUG level into a log file.  A quarter
+        # of the runs (chosen by the seed) do the same, so that code behind `isEnabledFor(DEBUG)` and the logging
+        # decorators is executed; the other runs are library use without a logging configuration
+        self.cli_logging = bool(swarm["cli_logging"]) if "cli_logging" in swarm else (seed % 4 == 1)
         self.sim_crypto = swarm.get("entropy", "sim") == "sim"
         self.trace = hashlib.sha256()
         self.trace_lines = [] if swarm.get("keep_trace") else None
@@ -327,6 +331,8 @@ class SimHost:
                 cli.main()
                 return None
             command, arguments, _log = args.parse_arguments()
+            if self.cli_logging:
+                cli.configure_cli_logging(os.path.join(self.logdir, "suit-generator.log"))
             cli.COMMAND_EXECUTORS[command](**vars(arguments))
             return None
 
@@ -335,8 +341,27 @@ class SimHost:
         try:
             return self.tool(run, kind=kind or argv[0], faults=faults, timeout=timeout, argv=argv)
         finally:
-            if full_main:
+            if full_main or self.cli_logging:
                 _reset_logging()
+
+    def with_cli_logging(self):
+        """Context manager for tool code that is not entered through cli(): the same logging state as cli() would give."""
+        import contextlib
+
+        @contextlib.contextmanager
+        def cm():
+            if not self.cli_logging:
+                yield
+                return
+            from suit_generator import cli
+
+            cli.configure_cli_logging(os.path.join(self.logdir, "suit-generator.log"))
+            try:
+                yield
+            finally:
+                _reset_logging()
+
+        return cm()
 
     def disk_digest_line(self):
         self.log_line({"disk": self.tree()})
